@@ -104,16 +104,18 @@ def poison(table, cause, line):
     if cause == "extfn":
         return t
     comp, good, bad = CAUSES[cause]
-    t["cols"].insert(1, {"name": "e", "type": "err", "dense": True})
+    # appended as the LAST column so that index-based header references of the generated
+    # programs keep pointing at the same cells (tables here are not ragged)
+    t["cols"].append({"name": "e", "type": "err", "dense": True})
     first = True
     for i, r in enumerate(t["records"]):
         if not r:
             continue
         if first:
-            r.insert(1, "e")
+            r.append("e")
             first = False
         else:
-            r.insert(1, bad if i == line else good)
+            r.append(bad if i == line else good)
     return t
 
 
@@ -160,12 +162,10 @@ def one_point(case, sb, am, line):
     # standalone references for the members that do not abort (policy without raise for them is irrelevant: they have no error)
     alone = []
     for i, m in enumerate(members):
-        if i == am:
-            alone.append(None)
-        else:
-            alone.append(real.run_path(member_text(m, rel)))
-    if any(a is not None and (a["raised"] or a["errors"]) for a in alone):
-        return None, None   # some other member errors by itself: abort point not unique -> skip
+        a = real.run_path(member_text(m, rel))
+        if a["raised"] or a["errors"]:
+            return None, None   # a member errors by itself (without the poison): abort point not unique -> skip
+        alone.append(None if i == am else a)
     c08.sb_reset_archive(sb)
     cps = real.new_csvpaths()
     real.setup_group(sb, cps, "g", texts, "f", records)
